@@ -53,6 +53,7 @@ theorem countP_pos_of_getElem? {p : PC → Bool} {l : List PC} {i : Nat} {x : PC
   rw [List.countP_pos_iff]
   exact ⟨x, List.mem_of_getElem? h, hx⟩
 
+omit F in
 theorem all_wd_false {n : Nat} {s : RC} (hi : RInv n s) (h0 : s.pcs.countP PC.undec = 0) :
     s.wd.all (fun b => !b) = true := by
   rw [List.all_eq_true]
